@@ -18,7 +18,7 @@ func init() {
 }
 
 func checkC01(w *World, r *Report) {
-	r.Decides = "C01 is decided in its structural part only: (a) all writes of an apply call go to the one batch of the apply context, none to the DB directly; (b) the commit is crossed after the handlers and never inside a command; (c) the applied-index key is written into the same batch from the entry's own index before the commit; (d) reads inside the apply path go through the context's batch and only after it was made indexed (the old batch applied into it); (e) the read that feeds prev_kv/deleted precedes the write; (f) keys handed to writes and bounds come only from the user-key encoder or a fresh incremented copy of the maximum user key, bookkeeping keys are touched only by the commit function and the index readers, package-level key slices are never handed to a function that writes through its parameter; (g) range reads are bounded on both sides and the single-key read is exact; (h) every command kind and every transaction operation kind has a handler; (i) Update applies every entry of an apply call, one by one from entries[0] to the last, and never leaves its loop with success from inside an iteration - likewise the loops over a sequence, a batch and a transaction branch; (j) the stored key is an injective, order preserving encoding of the user key (the obligations C12.a-c)."
+	r.Decides = "C01 is decided in its structural part only: (a) all writes of an apply call go to the one batch of the apply context, none to the DB directly; (b) the commit is crossed after the handlers and never inside a command; (c) the applied-index key is written into the same batch from the entry's own index before the commit; (d) reads inside the apply path go through the context's batch and only after it was made indexed (the old batch applied into it); (e) the read that feeds prev_kv/deleted precedes the write; (f) keys handed to writes and bounds come only from the user-key encoder or a fresh incremented copy of the maximum user key, bookkeeping keys are touched only by the commit function and the index readers, package-level key slices are never handed to a function that writes through its parameter; (g) range reads are bounded on both sides and the single-key read is exact; (h) every command kind and every transaction operation kind has a handler; (i) Update applies every entry of an apply call, one by one from entries[0] to the last, and never leaves its loop with success from inside an iteration - likewise the loops over a sequence, a batch and a transaction branch; (j) the stored key is an injective, order preserving encoding of the user key (the obligations C12.a-c). (k) every command is decoded into a message allocated for that decode or fully reset; (l) the apply batch is mutated only with Set, Delete and DeleteRange; (m) the store's comparer is the bytewise default with the identity split."
 	r.NotDecided = []string{"that Pebble's batch and iterator semantics compose to sorted-map behaviour", "the arithmetic of the bound increment", "response values"}
 	r.Assume = []string{"pebble: a batch is applied atomically by Commit; a non-indexed batch cannot be read", "SeekPrefixGE with a comparer whose Split is the identity is an exact-match seek"}
 	a := w.FsmAnchors()
@@ -38,6 +38,41 @@ func checkC01(w *World, r *Report) {
 	applyLoopComplete(w, r, a, "C01.i", "i-every-entry-applied")
 	c12Layout(w, r, "C01", ".j1", ".j2", ".j3")
 	c12BufferReuse(w, r, "C01.j4", "j4-encode-into-empty-buffer")
+	c01FreshDecode(w, r, a, "C01.k", "k-fresh-decode-target")
+	c01WriteKinds(w, r, a, "C01.l", "l-plain-write-operations")
+	c12Comparer(w, r, "C01.m", "m-bytewise-comparer")
+}
+
+// c01WriteKinds: the apply path mutates the batch only with operations whose effect does not
+// depend on the key's history.
+func c01WriteKinds(w *World, r *Report, a *FsmA, id, slug string) {
+	ob := r.Ob(id, slug, "every mutating Pebble batch call reachable from Update is Set, Delete or DeleteRange (plus Apply of the old batch in the make-indexed function): no SingleDelete, DeleteSized, Merge, deferred or range-key operation", "SingleDelete removes only the newest version of a key: a key the table overwrote resurfaces, after the next flush or compaction, with its older value - at different times on different replicas; Merge and the others have no counterpart in the map the table is supposed to be")
+	plain := map[string]bool{}
+	for _, m := range []string{"Set", "Delete", "DeleteRange"} {
+		plain["(*"+pebblePath+".Batch)."+m] = true
+	}
+	n := 0
+	for _, fn := range sortedFuncs(a.applyReach()) {
+		eachInstr(fn, func(in ssa.Instruction) {
+			c := callOf(in)
+			if c == nil {
+				return
+			}
+			name := CalleeName(c)
+			if !batchWrites[name] {
+				return
+			}
+			n++
+			ob.Site(in.Pos(), shortName(name)+" in "+FnName(fn))
+			if !plain[name] {
+				ob.Violate("write-kind@"+FnName(fn), in.Pos(), FnName(fn)+" mutates the apply batch with "+shortName(name)+", whose effect depends on how often the key was written before")
+			}
+		})
+	}
+	if n == 0 {
+		ob.Undecided("shape", "no batch write found in the apply path")
+	}
+	ob.NeedFloor(3)
 }
 
 // ---- C01.a ----
